@@ -307,7 +307,9 @@ def tflow_snippets(cases: list) -> list:
             st = [ASSIGN(x, _tval(t1, 3, ain)), ASSIGN(y, _tval(t2, 5, ain)), TUPLE([x, y], [V(y), V(x)]), WRITE(V(x)), WRITE(V(y))]
         else:
             raise ValueError(site)
-        out.append(snip(f"tflow{n}", st, ain, "tflow:" + site, defs))
+        sn = snip(f"tflow{n}", st, ain, "tflow:" + site, defs)
+        sn["types"] = [t1, t2]
+        out.append(sn)
     return out
 
 
@@ -336,8 +338,9 @@ def pack(snips: list, size: int = 20, mode: str = "setup", prefix: str = "pk") -
             body.append(WRITE(S(f"#{s['id']}")))
             defs.update(copy.deepcopy(s.get("defs") or {}))
             if mode == "function":
-                defs[f"fn_{s['id']}"] = DEF([], copy.deepcopy(s["stmts"]))
-                body.append(EXPR(CALL(f"fn_{s['id']}")))
+                fname = "fn_" + "".join(ch if ch.isalnum() else "_" for ch in s["id"])
+                defs[fname] = DEF([], copy.deepcopy(s["stmts"]))
+                body.append(EXPR(CALL(fname)))
             else:
                 body += copy.deepcopy(s["stmts"])
             ain += s["ain"]
